@@ -22,7 +22,7 @@ def scr(slot, x, y):
     return rotl(((rotl(x, 2) ^ y) + C3DS) & M, 87).to_bytes(16, 'big')
 
 
-SLOTS = [0, 1, 3, 4, 5, 0x18, 0x2C, 0x3D, 0x40, 0x44]
+SLOTS = [0, 1, 3, 4, 5, 0x18, 0x2C, 0x30, 0x34, 0x3A, 0x3D, 0x40, 0x44]
 SPECIAL = [0, M, 1, 2, 1 << 40, 1 << 41, 1 << 42, 1 << 85, 1 << 86, 1 << 87, 1 << 125, 1 << 126, 1 << 127,
            M ^ C3DS, (M - C3DS) + 5, M - CTWL + 1, (1 << 126) - 1]
 
@@ -84,6 +84,10 @@ class C08(Check):
                 ops.append(['tik', e, bytes(tik)])
             elif r < 0.90:
                 ops.append(['etk', e, rng.rbytes(16), rng.pick([0, 1, 2, 3, 4, 5]), rng.rbytes(8)])
+            elif r < 0.94:
+                # the compound key-setting operations of the engine belong to "any sequence of key-setting operations" as well:
+                # setup_sd_key puts the movable.sed KeyY into three slots - and must leave every other slot as it is
+                ops.append(['sdk', e, rng.rbytes(rng.pick([0x10, 0x10, 0x120, 0x140, 0x20]))])
             else:
                 ops.append(['get', e, slot])
         return {'ops': ops}
@@ -184,6 +188,13 @@ class C08(Check):
                     expect = AES.new(ck, AES.MODE_CBC, tid + b'\0' * 8).decrypt(tk)
                     gh[0x40] = ('direct', expect)
                     touched = 0x40
+                elif k == 'sdk':
+                    eng.setup_sd_key(op[2])
+                    ky = op[2] if len(op[2]) == 0x10 else op[2][0x110:0x120]
+                    gy = gh.setdefault('_y', {})
+                    for s_ in (0x34, 0x30, 0x3A):
+                        gy[s_] = int.from_bytes(ky, 'big')
+                        gh[s_] = ('formula',) if s_ in eng.key_x else None
                 elif k == 'get':
                     observe(op[1], op[2])
                     continue
@@ -193,13 +204,15 @@ class C08(Check):
                 nontrivial = True
                 if k in ('tik', 'etk'):
                     ghosts[op[1]][0x3D] = None
+                elif k == 'sdk' and len(op[2]) not in (0x10, 0x120, 0x140):
+                    pass        # BadMovableSedError for an impossible length
                 else:
                     mon.append(f'{k} raised {toks[-1]}')
             wire.append(tuple('none' if x is None else x for x in op))
             if touched is not None:
                 for j in range(len(engines)):
                     observe(j, touched)
-            elif k == 'ref':
+            elif k in ('ref', 'sdk'):
                 for s in SLOTS:
                     observe(op[1], s)
             elif k == 'clone':
